@@ -537,8 +537,9 @@ class Executor:
             env[c] = Val(self.ctx.sym("ref." + tgt, 64), 64, ref=tgt, mut=(m.group(1) == "mut "))
             return
         if rv.startswith("discriminant("):
-            pc, _ = self.canon(env, rv[len("discriminant("):-1])
+            pc, pty = self.canon(env, rv[len("discriminant("):-1])
             d = self.read_discr(env, pc)
+            self.events.append(Event("discr_read", guard, node, place=pc, ty=self.place_type(pc, pty), term=d.term))
             self.store(env, node, guard, c, self.resize(d, dsort or 64, False), is_ref_write)
             return
         m = re.match(r"^(\w+)\((.*)\)$", rv)
